@@ -21,6 +21,9 @@ type c15Term struct {
 
 func c15XdY(r *fw.Rand) c15Term {
 	times := int64(r.Range(1, 6))
+	if r.P(1, 6) {
+		times = fw.PickT(r, []int64{15, 16, 17, 20, 40, 64})
+	}
 	sides := fw.PickT(r, []int64{1, 2, 6, 20, 100})
 	if r.P(1, 5) {
 		// face counts around the 16-, 31- and 32-bit boundaries and beyond
@@ -247,6 +250,11 @@ func c15Case(w *fw.W, idx int, r *fw.Rand) {
 	desc := fmt.Sprintf("wrap=%d seed=%d src=%q", wrap, seed, src)
 	w.Begin(idx, desc)
 	base := Cfg{CoC: true, Fate: true, Seed: seed}
+	if r.P(1, 5) {
+		base.Seed = 0 // a context without its own generator: same bounds, and the package generator stays untouched in min/max mode
+		desc += " unseeded"
+		w.Begin(idx, desc)
+	}
 	cmin, cmax := base, base
 	cmin.Min = true
 	cmax.Max = true
@@ -274,7 +282,9 @@ func c15Case(w *fw.W, idx int, r *fw.Rand) {
 	obsLo, obsHi := int64(1<<62), int64(-1<<62)
 	for k := 0; k < K; k++ {
 		c := base
-		c.Seed = r.U64() | 1
+		if base.Seed != 0 {
+			c.Seed = r.U64() | 1
+		}
 		v, e, _, _ := c15Run(c, wrap, src, nil)
 		w.Eval(1)
 		if e != "" {
